@@ -141,3 +141,64 @@ Proof.
   - cbn. lia.
   - reflexivity.
 Qed.
+
+(* ---- base58check (legacy P2PKH / P2SH addresses) and withdrawal-address decoding ---- *)
+From Goat Require Import Proofs.Base58.
+(* the base58check string of (payload, version byte) decodes back to exactly that pair, for every payload: digit
+   expansion in a base is canonical and evaluates back to the number, leading zero bytes map to leading '1's *)
+Theorem C17_base58check_round_trip (sha256d : bytes -> bytes) payload version :
+  Forall (fun x => (x < 256)%N) payload -> (version < 256)%N ->
+  (forall m, (4 <= length (sha256d m))%nat /\ Forall (fun x => (x < 256)%N) (sha256d m)) ->
+  check_decode sha256d (check_encode sha256d payload version) = Some (payload, version).
+Proof. exact (base58check_round_trip sha256d payload version). Qed.
+Print Assumptions C17_base58check_round_trip.
+
+Theorem C17_legacy_address_round_trip (sha256d : bytes -> bytes) hrps net a :
+  (forall m, (4 <= length (sha256d m))%nat /\ Forall (fun x => (x < 256)%N) (sha256d m)) ->
+  match a with APubKeyHash h id => id = n_pkh net | AScriptHash h id => id = n_sh net | _ => False end ->
+  n_pkh net <> n_sh net -> (n_pkh net < 256)%N -> (n_sh net < 256)%N ->
+  length (addr_prog_legacy a) = 20%nat -> Forall (fun x => (x < 256)%N) (addr_prog_legacy a) ->
+  let s := encode_address sha256d a in
+  not_read_as_segwit hrps s -> length s <> 130%nat -> length s <> 66%nat ->
+  decode_address sha256d hrps net s = Ok a.
+Proof. exact (legacy_address_round_trip sha256d hrps net a). Qed.
+Print Assumptions C17_legacy_address_round_trip.
+
+(* withdrawal addresses: the string of every standard segwit address of the configured network is decoded by
+   DecodeBtcAddress to exactly the output script it encodes *)
+Theorem C17_segwit_withdrawal_decodes (sha256d : bytes -> bytes) hrps net a :
+  segwit_addr_ok a -> Forall (fun x => (x < 256)%N) (addr_prog a) -> addr_hrp a = n_hrp net ->
+  hrp_ok (n_hrp net) -> (2 <= length (n_hrp net) <= 20)%nat -> in_list (n_hrp net) hrps = true ->
+  decode_btc_address sha256d hrps net (encode_address sha256d a) = Ok (pay_to_addr a).
+Proof.
+  intros Hok Hp Eh Hh Hl Hin. unfold decode_btc_address, rbind.
+  rewrite (segwit_address_round_trip sha256d hrps net a Hok Hp); try (rewrite Eh; assumption).
+  assert (is_for_net net a = true) as ->; [|reflexivity].
+  destruct a; cbn in Hok; try contradiction; cbn in Eh; cbn [is_for_net]; rewrite Eh; apply beq_bytes_refl.
+Qed.
+Print Assumptions C17_segwit_withdrawal_decodes.
+
+(* and so is that of every legacy address of the configured network (for strings the segwit reading does not claim) *)
+Theorem C17_legacy_withdrawal_decodes (sha256d : bytes -> bytes) hrps net a :
+  (forall m, (4 <= length (sha256d m))%nat /\ Forall (fun x => (x < 256)%N) (sha256d m)) ->
+  match a with APubKeyHash h id => id = n_pkh net | AScriptHash h id => id = n_sh net | _ => False end ->
+  n_pkh net <> n_sh net -> (n_pkh net < 256)%N -> (n_sh net < 256)%N ->
+  length (addr_prog_legacy a) = 20%nat -> Forall (fun x => (x < 256)%N) (addr_prog_legacy a) ->
+  let s := encode_address sha256d a in
+  not_read_as_segwit hrps s -> length s <> 130%nat -> length s <> 66%nat ->
+  decode_btc_address sha256d hrps net s = Ok (pay_to_addr a).
+Proof.
+  intros Hsha Hid Hne Hp Hs Hl Hb s Hseg H130 H66. unfold decode_btc_address, rbind. subst s.
+  rewrite (legacy_address_round_trip sha256d hrps net a Hsha Hid Hne Hp Hs Hl Hb Hseg H130 H66).
+  assert (is_for_net net a = true) as ->; [|reflexivity].
+  destruct a; try contradiction; cbn [is_for_net]; subst; apply N.eqb_refl.
+Qed.
+Print Assumptions C17_legacy_withdrawal_decodes.
+
+(* non-vacuity of the legacy statement: a regtest-style P2PKH address (version 111) under a stand-in checksum *)
+Example C17_legacy_example :
+  let sha := fun _ : bytes => [1; 2; 3; 4]%N in
+  let net := mkNet [98; 99; 114; 116] 111 196 in
+  decode_btc_address sha [[98; 99; 114; 116]] net (encode_address sha (APubKeyHash (repeat 7%N 20) 111))
+  = Ok (pay_to_addr (APubKeyHash (repeat 7%N 20) 111)).
+Proof. vm_compute. reflexivity. Qed.
